@@ -382,7 +382,7 @@ theorem lsc_lt_tl : lsc < tl := by
   apply Real.strictAntiOn_arccos
   · constructor
     · linarith [Real.sqrt_nonneg (1 - (2 / 3 : ℝ) ^ 2)]
-    · rw [Real.sqrt_le_one_iff]; norm_num
+    · rw [Real.sqrt_le_iff]; norm_num
   · exact ⟨by linarith [Real.sqrt_nonneg (2 / 3 * (4 / π))], lsc_arg_lt_one.le⟩
   · apply Real.sqrt_lt_sqrt (by norm_num)
     rw [show (2 : ℝ) / 3 * (4 / π) = 8 / (3 * π) by field_simp; ring, lt_div_iff₀ (by positivity)]
@@ -398,5 +398,285 @@ theorem new_continuous_at_lsc (depth : Nat) :
   simp only [pow2]
   field_simp
   ring
+
+/-! ### finding F12: the polar-cap branch is not a bound over the cone
+
+The cone of centre `(lon, lat)` and angular radius `r` contains positions whose longitude differs from `lon` by about
+`r / cos lat > r`; `largest_c2v_dist_in_npc_with_radius` widens the folded longitude by `r` only.  Concretely, for
+any constants with `slopeNpc > 0`: centre `(π/4, π/3)`, `r = 2·asin(sin(π/8)/2) ≈ 0.385 < π/4`; the position
+`(π/2, π/3)` is at angular distance exactly `r` from the centre, in the same polar cap, and its pointwise value
+`npcEnv (π/4)` exceeds the value with radius `npcEnv r`. -/
+
+/-- the radius of the counter-example -/
+noncomputable def cexR : ℝ := 2 * Real.arcsin (Real.sin (π / 8) / 2)
+
+theorem sin_pi8_pos : 0 < Real.sin (π / 8) :=
+  Real.sin_pos_of_pos_of_lt_pi (by positivity) (by linarith [Real.pi_pos])
+
+theorem cexR_pos : 0 < cexR := by
+  unfold cexR
+  have := Real.arcsin_pos.mpr (show 0 < Real.sin (π / 8) / 2 by linarith [sin_pi8_pos])
+  linarith
+
+theorem cexR_lt : cexR < π / 4 := by
+  unfold cexR
+  have hpi := Real.pi_pos
+  have h1 := Real.sin_le_one (π / 8)
+  have : Real.arcsin (Real.sin (π / 8) / 2) < π / 8 := by
+    rw [Real.arcsin_lt_iff_lt_sin ⟨by linarith [sin_pi8_pos], by linarith⟩ ⟨by linarith, by linarith⟩]
+    linarith [sin_pi8_pos]
+  linarith
+
+theorem tl_le_pi3 : tl ≤ π / 3 := by
+  have hpi := Real.pi_pos
+  show Real.arcsin (2 / 3) ≤ π / 3
+  rw [Real.arcsin_le_iff_le_sin ⟨by norm_num, by norm_num⟩ ⟨by linarith, by linarith⟩, Real.sin_pi_div_three]
+  have : (4 / 3 : ℝ) ≤ Real.sqrt 3 := Real.le_sqrt_of_sq_le (by norm_num)
+  linarith
+
+theorem fold_pi4 : fold (π / 4) = 0 := by
+  have hpi := Real.pi_pos
+  rw [fold_small _ (by linarith) (by linarith)]; simp
+
+theorem fold_pi2 : fold (π / 2) = π / 4 := by
+  have hpi := Real.pi_pos
+  have hy : 0 < π / 2 := by positivity
+  unfold fold
+  rw [(rem_halfPi_of_nonneg (π / 2) hy.le).1, div_self hy.ne']
+  simp only [Int.floor_one, Int.cast_one, mul_one, sub_self, sub_zero]
+  exact abs_of_pos (by positivity)
+
+/-- the angular distance (haversine formula of the crate) between `(π/4, π/3)` and `(π/2, π/3)` is `cexR` -/
+theorem cex_distance :
+    spheDist (squaredHalfSegment (π / 2 - π / 4 : ℝ) (π / 3 - π / 3) (Num.cos (π / 3 : ℝ)) (Num.cos (π / 3 : ℝ))) = cexR := by
+  unfold spheDist squaredHalfSegment pow2 cexR
+  rw [r_two, r_half, r_cos, r_sin, r_sin, r_asin, Real.cos_pi_div_three]
+  show 2 * Real.arcsin (Real.sqrt _) = _
+  congr 2
+  rw [show (1 : ℝ) / 2 * (π / 3 - π / 3) = 0 by ring, Real.sin_zero,
+    show (1 : ℝ) / 2 * (π / 2 - π / 4) = π / 8 by ring]
+  rw [show (0 : ℝ) * 0 + 1 / 2 * (1 / 2) * (Real.sin (π / 8) * Real.sin (π / 8)) = (Real.sin (π / 8) / 2) ^ 2 by ring]
+  exact Real.sqrt_sq (by linarith [sin_pi8_pos])
+
+/-- **F12, counter-example**: for every constants with `slopeNpc > 0`, the position `(π/2, π/3)` is in the cone of
+    centre `(π/4, π/3)` and radius `cexR` (at distance exactly `cexR`, `cex_distance`), in the north polar cap like the
+    centre, and `largest_center_to_vertex_distance` there is strictly larger than
+    `largest_center_to_vertex_distance_with_radius` of the cone. -/
+theorem npc_with_radius_not_cone_bound (c : Csts ℝ) (hs : 0 < c.slopeNpc) :
+    tl ≤ |(π / 3 : ℝ)| ∧ c2vR c (π / 4) (π / 3) cexR = npcEnv c cexR ∧ c2v c (π / 2) (π / 3) = npcEnv c (π / 4) ∧
+    c2vR c (π / 4) (π / 3) cexR < c2v c (π / 2) (π / 3) := by
+  have hpi := Real.pi_pos
+  have habs : |(π / 3 : ℝ)| = π / 3 := abs_of_pos (by positivity)
+  have h1 : tl ≤ |(π / 3 : ℝ)| := by rw [habs]; exact tl_le_pi3
+  have h2 : c2vR c (π / 4) (π / 3) cexR = npcEnv c cexR := by
+    unfold c2vR
+    rw [if_pos (by linarith [cexR_pos]), fold_pi4, zero_add, min_eq_left cexR_lt.le]
+  have h3 : c2v c (π / 2) (π / 3) = npcEnv c (π / 4) := by
+    unfold c2v; rw [if_pos h1, fold_pi2]
+  refine ⟨h1, h2, h3, ?_⟩
+  rw [h2, h3]; unfold npcEnv
+  nlinarith [cexR_lt]
+
+/-- the same on the model functions, at any depth whose `slope_npc` is positive -/
+theorem largestC2VWithRadius_not_cone_bound (depth : Nat) (hd1 : 1 ≤ depth) (hd2 : depth ≤ 29)
+    (hs : 0 < (Csts.new depth : Csts ℝ).slopeNpc) :
+    ∃ v w, largestC2VWithRadius false depth (π / 4 : ℝ) (π / 3) cexR = some v ∧
+      largestC2V false depth (π / 2 : ℝ) (π / 3) = some w ∧ v < w := by
+  refine ⟨c2vR (Csts.new depth) (π / 4) (π / 3) cexR, c2v (Csts.new depth) (π / 2) (π / 3), ?_, ?_,
+    (npc_with_radius_not_cone_bound _ hs).2.2.2⟩
+  · rw [c2v_with_radius_region_choice, if_neg (by omega), if_neg (by omega)]
+  · rw [c2v_region_choice, if_neg (by omega), if_neg (by omega)]
+
+/-! ## Task 3 — the multi-depth function agrees with the single-depth one (ℝ, release) -/
+
+theorem mapM_some_eq {β : Type} (g : Nat → β) (l : List Nat) : l.mapM (fun d => some (g d)) = some (l.map g) := by
+  induction l with
+  | nil => rfl
+  | cons a l ih => rw [List.mapM_cons, ih]; rfl
+
+theorem mapM_congr' {β : Type} (f f' : Nat → Option β) (l : List Nat) (h : ∀ d ∈ l, f d = f' d) :
+    l.mapM f = l.mapM f' := by
+  induction l with
+  | nil => rfl
+  | cons a l ih =>
+    rw [List.mapM_cons, List.mapM_cons, h a List.mem_cons_self, ih fun d hd => h d (List.mem_cons_of_mem _ hd)]
+
+theorem mapM_none_of_mem {β : Type} (f : Nat → Option β) (l : List Nat) (d : Nat) (hd : d ∈ l) (h : f d = none) :
+    l.mapM f = none := by
+  induction l with
+  | nil => cases hd
+  | cons a l ih =>
+    rw [List.mapM_cons]
+    rcases List.mem_cons.mp hd with rfl | hd'
+    · rw [h]; rfl
+    · rw [ih hd']; cases f a <;> rfl
+
+/-- the depths handled by `largest_center_to_vertex_distances_with_radius(from, to, …)`: `from, …, to − 1`, except
+    that `from = 0` always yields the depth-0 value first (even when `to = 0`) -/
+def depthsOf (f t : Nat) : List Nat :=
+  if f = 0 then 0 :: (List.range t).filter (· ≥ 1) else (List.range t).filter (· ≥ f)
+
+theorem filter_ge_range (f : Nat) : ∀ t, (List.range t).filter (· ≥ f) = List.range' f (t - f)
+  | 0 => by simp
+  | t + 1 => by
+    rw [List.range_succ, List.filter_append, filter_ge_range f t]
+    by_cases h : f ≤ t
+    · have h1 : t + 1 - f = (t - f) + 1 := by omega
+      have h2 : f + (t - f) = t := by omega
+      rw [h1, List.range'_concat, Nat.one_mul, h2]
+      simp [h]
+    · have h1 : t + 1 - f = 0 := by omega
+      have h2 : t - f = 0 := by omega
+      rw [h1, h2]; simp [h]
+
+/-- for `from < to` these are the depths `from, from + 1, …, to − 1` -/
+theorem depthsOf_eq_range' (f t : Nat) (h : f < t) : depthsOf f t = List.range' f (t - f) := by
+  unfold depthsOf
+  split
+  · subst f
+    rw [filter_ge_range 1 t, show t - 0 = (t - 1) + 1 by omega, List.range'_succ]
+  · exact filter_ge_range f t
+
+/-- **`c2vs_with_radius_agree`** (ℝ, release): `largest_center_to_vertex_distances_with_radius(from, to, lon, lat, r)`
+    returns, depth by depth (`depthsOf from to`: the half-open range `[from, to)`, plus depth 0 when `from = to = 0`),
+    exactly the values of `largest_center_to_vertex_distance_with_radius(depth, lon, lat, r)`, and panics exactly when
+    one of them does (a depth above 29). -/
+theorem c2vs_with_radius_agree (f t : Nat) (lon lat r : ℝ) :
+    largestC2VsWithRadius false f t lon lat r =
+      (depthsOf f t).mapM fun d => largestC2VWithRadius false d lon lat r := by
+  -- the positive depths
+  set ds := (List.range t).filter (· ≥ (if (f == 0) = true then 1 else f)) with hds
+  have hpos : ∀ d ∈ ds, 1 ≤ d := by
+    intro d hd
+    have := (List.mem_filter.mp hd).2
+    by_cases hf : f = 0
+    · simpa [hf] using this
+    · have h2 : f ≤ d := by simpa [hf] using this
+      omega
+  have hsplit : (depthsOf f t).mapM (fun d => largestC2VWithRadius false d lon lat r) =
+      (ds.mapM fun d => largestC2VWithRadius false d lon lat r).map
+        ((if (f == 0) = true then [(Num.halfPi : ℝ) - Num.transitionLat] else []) ++ ·) := by
+    unfold depthsOf
+    by_cases hf : f = 0
+    · subst hf
+      simp only [if_true, beq_self_eq_true, List.mapM_cons] at hds ⊢
+      rw [← hds]
+      have : largestC2VWithRadius false 0 lon lat r = some ((Num.halfPi : ℝ) - Num.transitionLat) := by
+        simp [largestC2VWithRadius]
+      rw [this]
+      cases ds.mapM fun d => largestC2VWithRadius false d lon lat r <;> rfl
+    · have hb : (f == 0) = false := beq_false_of_ne hf
+      simp only [hf, hb, if_false, Bool.false_eq_true] at hds ⊢
+      rw [← hds]
+      cases ds.mapM fun d => largestC2VWithRadius false d lon lat r <;> simp
+  rw [hsplit]
+  unfold largestC2VsWithRadius
+  simp only [Bool.false_and, Bool.false_eq_true, if_false]
+  rw [← hds]
+  by_cases hany : ds.any (· > 29) = true
+  · rw [if_pos hany]
+    obtain ⟨d, hd, h29⟩ := List.any_eq_true.mp hany
+    have h29' : 29 < d := by simpa using h29
+    rw [mapM_none_of_mem _ ds d hd (by rw [c2v_with_radius_region_choice, if_neg (by have := hpos d hd; omega), if_pos h29'])]
+    rfl
+  · rw [if_neg hany]
+    have hall : ∀ d ∈ ds, largestC2VWithRadius false d lon lat r = some (c2vR (Csts.new d) lon lat r) := by
+      intro d hd
+      have h1 := hpos d hd
+      have h2 : ¬ 29 < d := by
+        intro h; exact hany (List.any_eq_true.mpr ⟨d, hd, by simpa using h⟩)
+      rw [c2v_with_radius_region_choice, if_neg (by omega), if_neg h2]
+    rw [mapM_congr' _ _ ds hall, mapM_some_eq]
+    congr 1
+    simp only [r_ge, r_le, r_abs, decide_eq_true_eq, eqrTop_false, eqrBottom_false, mapM_some_eq, r_fmin, r_fmax, r_zero]
+    unfold c2vR
+    by_cases hA : tl ≤ |lat| + r
+    · simp only [if_pos hA]; rfl
+    · simp only [if_neg hA]
+      have hmin : min (|lat| + r) tl = |lat| + r := min_eq_left (not_le.mp hA).le
+      by_cases hB : lsc ≤ |lat| - r
+      · simp only [if_pos hB, hmin]
+      · simp only [if_neg hB]
+        by_cases hC : |lat| + r ≤ lsc
+        · simp only [if_pos hC]
+        · simp only [if_neg hC, hmin]
+
+/-! ### the dev profile (`debug = true`): the two functions do NOT agree (finding F7)
+
+When the band `[|lat| − r, |lat| + r]` straddles `lsc` without reaching `tl`, the single-depth function calls both
+`…_eqr_top_with_radius` and `…_eqr_bottom_with_radius` with the same `|lat|`; their `debug_assert!`s
+(`lsc ≤ |lat|` resp. `|lat| ≤ lsc`) exclude each other unless `|lat| = lsc`: it panics.  The multi-depth function
+calls the helpers without radius on the clamped ends of the band, whose assertions hold: it returns the release values. -/
+
+theorem with_radius_debug_straddle_panics (depth : Nat) (hd1 : 1 ≤ depth) (hd2 : depth ≤ 29) (lon lat r : ℝ)
+    (hA : |lat| + r < tl) (hB : |lat| - r < lsc) (hC : lsc < |lat| + r) (hne : |lat| ≠ lsc) :
+    largestC2VWithRadius true depth lon lat r = none := by
+  unfold largestC2VWithRadius
+  have h0 : (depth == 0) = false := beq_false_of_ne (by omega)
+  simp only [h0, Bool.false_eq_true, if_false, gt_iff_lt, not_lt.mpr hd2, r_ge, r_le, r_abs, decide_eq_true_eq,
+    not_le.mpr hA, not_le.mpr hB, not_le.mpr hC]
+  rcases lt_or_gt_of_ne hne with h | h
+  · have : eqrTopWithRadius true |lat| r (Csts.new depth : Csts ℝ) = none := by
+      unfold eqrTopWithRadius
+      simp [r_le, r_lt, not_le.mpr h]
+    rw [this]
+  · have : eqrBottomWithRadius true |lat| r (Csts.new depth : Csts ℝ) = none := by
+      unfold eqrBottomWithRadius
+      simp [r_le, r_lt, not_le.mpr h]
+    rw [this]
+    cases eqrTopWithRadius true |lat| r (Csts.new depth : Csts ℝ) <;> rfl
+
+theorem c2vs_debug_straddle (f t : Nat) (hft : f ≤ t) (lon lat r : ℝ)
+    (hA : |lat| + r < tl) (hB : |lat| - r < lsc) (hC : lsc < |lat| + r) :
+    largestC2VsWithRadius true f t lon lat r = largestC2VsWithRadius false f t lon lat r := by
+  unfold largestC2VsWithRadius
+  have hmin : min (|lat| + r) tl = |lat| + r := min_eq_left hA.le
+  have hmax : max (|lat| - r) 0 ≤ lsc := max_le hB.le lsc_pos.le
+  have htop : ∀ c : Csts ℝ, eqrTop true (|lat| + r) c = eqrTop false (|lat| + r) c := by
+    intro c; unfold eqrTop; simp [r_le, r_lt, hC.le, hA]
+  have hbot : ∀ c : Csts ℝ, eqrBottom true (max (|lat| - r) 0) c = eqrBottom false (max (|lat| - r) 0) c := by
+    intro c; unfold eqrBottom; simp [r_le, r_zero, hmax]
+  simp only [Bool.true_and, Bool.false_and, decide_eq_true_eq, not_lt.mpr hft, Bool.false_eq_true, if_false, r_ge, r_le,
+    r_abs, not_le.mpr hA, not_le.mpr hB, not_le.mpr hC, r_fmin, r_fmax, r_zero, hmin, htop, hbot]
+
+/-! ### the sign of `slope_eqr`: with the constants of the crate it is NEGATIVE
+
+`ConstantsC2V::new` computes the value of the upper equatorial envelope at `lsc` as `4/π · cos(lsc) / nside`
+(≈ 1.173/nside; the comment in the source says `π/4`, ≈ 0.724/nside) and at `tl` as `tl − asin((1 − 1/nside)·2/3)`
+(≈ 0.894/nside): the line goes DOWN with the latitude (`slope_eqr = −0.595, −0.264, …` at depths 1, 2, …; evaluated at
+`Float` in the model).  `largest_c2v_dist_in_eqr_top_with_radius` evaluates the line at the TOP of the latitude band
+`min (|lat| + r) tl`: with a negative slope that is the *minimum* of the pointwise envelope over the band, so
+`…_with_radius(lat, r) < …(lat)` (e.g. `Float`, depth 6, lat 0.45, r 0.04: 0.017111 < 0.017648).
+`eqr_top_with_radius_is_inf` / `eqr_top_with_radius_not_bound` state this for arbitrary constants with
+`slopeEqr ≤ 0` / `< 0`; `new_slopeEqr_neg` proves `slopeEqr < 0` for `ConstantsC2V::new(depth)` over ℝ, every depth. -/
+
+/-- with a non-positive slope the value with radius is a LOWER bound of the pointwise envelope on the band -/
+theorem eqr_top_with_radius_is_inf (c : Csts ℝ) (hs : c.slopeEqr ≤ 0) (x r : ℝ) :
+    ∀ x', x' ≤ x + r → x' ≤ tl → topEnv c (min (x + r) tl) ≤ topEnv c x' := by
+  intro x' h1 h2
+  have : x' ≤ min (x + r) tl := le_min h1 h2
+  unfold topEnv; nlinarith
+
+/-- with a negative slope and a positive radius, the value with radius is strictly below the pointwise value at the
+    centre of the band itself -/
+theorem eqr_top_with_radius_not_bound (c : Csts ℝ) (hs : c.slopeEqr < 0) (x r : ℝ) (hr : 0 < r) (hx : x < tl) :
+    ∃ v w, eqrTopWithRadius false x r c = some v ∧ eqrTop false x c = some w ∧ v < w := by
+  refine ⟨_, _, eqrTopWithRadius_false x r c, eqrTop_false x c, ?_⟩
+  have : x < min (x + r) tl := lt_min (by linarith) hx
+  unfold topEnv; nlinarith
+
+/-- the public functions: band inside `[lsc, tl)`, negative `slope_eqr`: the value with radius is strictly below the
+    value without radius at the same position -/
+theorem largestC2VWithRadius_lt_at_centre (depth : Nat) (hd1 : 1 ≤ depth) (hd2 : depth ≤ 29)
+    (hs : (Csts.new depth : Csts ℝ).slopeEqr < 0) (lon lat r : ℝ) (hr : 0 < r)
+    (hlo : lsc ≤ |lat| - r) (hhi : |lat| + r < tl) :
+    ∃ v w, largestC2VWithRadius false depth lon lat r = some v ∧ largestC2V false depth lon lat = some w ∧ v < w := by
+  refine ⟨c2vR (Csts.new depth) lon lat r, c2v (Csts.new depth) lon lat, ?_, ?_, ?_⟩
+  · rw [c2v_with_radius_region_choice, if_neg (by omega), if_neg (by omega)]
+  · rw [c2v_region_choice, if_neg (by omega), if_neg (by omega)]
+  · unfold c2vR c2v
+    rw [if_neg (not_le.mpr hhi), if_pos hlo, if_neg (not_le.mpr (by linarith)), if_pos (by linarith),
+      min_eq_left hhi.le]
+    unfold topEnv; nlinarith
 
 end Hpx.C2VReal
